@@ -25,6 +25,7 @@ type c19CmdCase struct {
 	Cwd      string            `json:"cwd"`
 	Main     string            `json:"main"`
 	Cfg      config            `json:"config"`
+	Second   *config           `json:"second,omitempty"` // a second -g; then there is no -o and each language writes to ./gen-<language>
 	FSFaults []simrt.FSFault   `json:"fs_faults,omitempty"`
 	DiskCap  int64             `json:"disk_cap,omitempty"`
 	Blocker  string            `json:"blocker,omitempty"` // a regular file sitting where an output directory is needed
@@ -35,8 +36,19 @@ type c19CmdCase struct {
 }
 
 func (c *c19CmdCase) spec() *simrt.Spec {
-	cc := &cmdCase{Prog: &program{Files: c.Files, Cwd: c.Cwd, Main: c.Main}, Cfg: c.Cfg}
+	cc := &cmdCase{Prog: &program{Files: c.Files, Cwd: c.Cwd, Main: c.Main}, Cfg: c.Cfg, Second: c.Second}
 	sp := cc.spec(c.Seed)
+	if c.Second != nil {
+		var args []string
+		for i := 0; i < len(sp.Args); i++ {
+			if sp.Args[i] == "-o" && i+1 < len(sp.Args) {
+				i++
+				continue
+			}
+			args = append(args, sp.Args[i])
+		}
+		sp.Args = args
+	}
 	sp.FSFaults = c.FSFaults
 	sp.DiskCap = c.DiskCap
 	sp.Strategy = c.Strategy
@@ -103,20 +115,28 @@ func c19CmdJudge(c *c19CmdCase, wr *worldRun) (*c19CmdVerdict, bool) {
 	}
 	groups := feedGroups(res)
 	ptaps := persistTaps(res)
-	if len(groups) != 1 || len(ptaps) != 1 {
-		return bad("missing-file", "thriftgo exited with status 0 but the persist phase ran %d times for %d language(s)", len(ptaps), len(groups))
+	langs := 1
+	if c.Second != nil {
+		langs = 2
 	}
-	cls, _, msg, judged := judgeOutput(c.Cwd, noFmt, res, groups[0], ptaps[0], nil)
-	if !judged {
-		return v, false
+	if len(groups) != langs || len(ptaps) != langs {
+		return bad("missing-file", "thriftgo exited with status 0 but the persist phase ran %d times for %d language(s), %d requested", len(ptaps), len(groups), langs)
 	}
-	if cls != "" {
-		if cls == "exit0-incomplete" {
-			cls = "missing-file"
+	all := true
+	for gi := range groups {
+		cls, _, msg, judged := judgeOutput(c.Cwd, noFmt && gi == 0, res, groups[gi], ptaps[gi], nil)
+		if !judged {
+			all = false
+			continue
 		}
-		return bad(cls, "%s", msg)
+		if cls != "" {
+			if cls == "exit0-incomplete" {
+				cls = "missing-file"
+			}
+			return bad(cls, "%s", msg)
+		}
 	}
-	return v, true
+	return v, all
 }
 
 // c19CmdPhase runs the command-level workload; it returns findings (already
@@ -151,6 +171,11 @@ func c19CmdPhase(a *artefacts, tier string, seed uint64, rep *reporter) map[stri
 		c.Cfg = config{Backend: []string{"go", "go", "fastgo"}[r.Intn(3)], Rec: true}
 		if c.Cfg.Backend == "go" && r.Chance(1, 2) {
 			c.Cfg.Opts = []string{"no_fmt"}
+		}
+		if r.Chance(1, 4) {
+			// two target languages, each into its own ./gen-<language>: a fault while the first one is
+			// written must not be forgotten because the second one went fine
+			c.Second = &config{Backend: map[string]string{"go": "fastgo", "fastgo": "go"}[c.Cfg.Backend]}
 		}
 		// fault-free baseline (also tells which files are written)
 		bw := runWorld(a, c.spec())
